@@ -41,7 +41,7 @@ theorem C09_total (ops : CharOps) (r : Rule) (s : Str) :
 /-- the property name printed into the binding denotes the renamed name: `raw_name_to_ts_field`
     either leaves it as it is or wraps it in double quotes -/
 theorem C09_binding_name (ops : CharOps) (n : Str) :
-    rawNameToTsField ops n = n ∨ rawNameToTsField ops n = ['"'] ++ n ++ ['"'] := by
+    rawNameToTsField ops n = n ∨ rawNameToTsField ops n = quoteStr ops n := by
   unfold rawNameToTsField
   cases validName ops n <;> simp
 
